@@ -57,6 +57,7 @@ class Contract:
         self.at_calls = dict(at_calls or {})      # callee name -> [spec text] asserted in the caller's state at each call
         self.ghost_out = dict(ghost_out or {})   # function locals visible to ensures (existential at call sites)
         self.rely = []                           # two-state predicates assumed across every await point of this coroutine
+        self.ensures_concrete = []               # clauses the prover cannot close: evaluated ONLY by the bounded concrete harness
 
     @property
     def key(self):
